@@ -2,13 +2,16 @@
 mod alloc;
 mod c01;
 mod c07;
+mod c08;
+mod c13;
 mod glue;
 mod refcodec;
+mod refmsg;
 mod vgen;
 
 #[global_allocator]
 static ALLOC: alloc::Counting = alloc::Counting;
 
 fn main() {
-    vcommon::main(&[&c01::DEF, &c07::DEF])
+    vcommon::main(&[&c01::DEF, &c07::DEF, &c08::DEF, &c13::DEF])
 }
